@@ -69,6 +69,12 @@ class SubstCanon:
             recv, var = a[2]
             if recv == self.p_plug and self.fld(var) == 'v':
                 return ('fresh', 'e' if a[1].endswith('e_fresh') else 's', 'plug', 'v')
+        # `<constraint list of self>.contains(&var)`: membership of the substituted variable in a constraint list of the metavariable
+        if a[0] == 'call' and a[1] in ('slice::contains', 'Vec::contains', '<[T]>::contains') and len(a[2]) == 2:
+            lst, var = a[2]
+            rl = self.fld(lst)
+            if rl is not None and var == self.p_var:
+                return ('in', 'var', rl)
         raise AnalysisError(f'{self.short}/{self.variant}: condition outside the analysed subset: {mireval.show(a)}')
 
 
@@ -149,7 +155,8 @@ def _unchanged(t, val):
     """under ('unchanged', role)=True the child equals its instantiation; ('empty',)=True makes every child unchanged"""
     if not isinstance(t, tuple) or not t:
         return t
-    if t[0] == 'inst' and (val.get(('unchanged', t[1])) is True or val.get(('empty',)) is True):
+    if t[0] == 'inst' and (val.get(('unchanged', t[1])) is True or val.get(('empty',)) is True
+                           or val.get(('disjoint', t[1])) is True or val.get(('disjoint', '*')) is True):
         return ('f', t[1])
     return tuple(_unchanged(x, val) if isinstance(x, tuple) else x for x in t)
 
